@@ -95,6 +95,12 @@ Proof.
   - destruct H as [H1 H2]. split; auto. eapply IH; eassumption.
 Qed.
 
+Lemma anyb_existsb : forall {A} (f : A -> bool) l, anyb f l = existsb f l.
+Proof. induction l as [|a l IH]; simpl; auto. rewrite IH. destruct (f a); reflexivity. Qed.
+
+Lemma if_and3 : forall a b c : bool, (if a then if b then c else false else false) = a && b && c.
+Proof. destruct a, b; reflexivity. Qed.
+
 Lemma search_sound : forall fuel s rem, search fuel s rem = true -> linearizable s rem.
 Proof.
   induction fuel as [|k IH]; intros s rem H; destruct rem as [|c rem'].
@@ -111,7 +117,8 @@ Proof.
       * simpl. split. apply resp_eqb_eq. exact Hm. rewrite readonly_state by assumption. exact HL.
       * apply rt_ok_cons. split; auto. apply can_first_spec in Hcf.
         eapply Permutation_Forall. apply Permutation_sym. exact HP. exact Hcf.
-    + apply existsb_exists in H. destruct H as [[x rest] [Hin Hc]]. cbn [fst snd] in *.
+    + rewrite anyb_existsb in H. apply existsb_exists in H. destruct H as [[x rest] [Hin Hc]]. cbn [fst snd] in *.
+      rewrite if_and3 in Hc.
       apply andb_true_iff in Hc. destruct Hc as [Hc Hs]. apply andb_true_iff in Hc. destruct Hc as [Hcf Hm].
       apply IH in Hs. destruct Hs as [order [HP [HL HR]]].
       exists (x :: order). split; [|split].
@@ -149,7 +156,7 @@ Proof.
     + destruct order as [|y order'].
       { apply Permutation_nil in HP. discriminate. }
       destruct (picks_complete _ _ _ HP) as [rest [Hin HPr]].
-      apply existsb_exists. exists (y, rest). split; auto. cbn [fst snd].
+      rewrite anyb_existsb. apply existsb_exists. exists (y, rest). split; auto. cbn [fst snd]. rewrite if_and3.
       simpl in HLg. destruct HLg as [Hresp HLg']. apply rt_ok_cons in HR. destruct HR as [HR1 HR2].
       apply andb_true_iff. split. apply andb_true_iff. split.
       * apply can_first_spec. eapply Permutation_Forall. exact HPr. exact HR2.
